@@ -5,7 +5,7 @@
 //! `h_stub.rs` - `vf/run_kani.py::_DEPS` was left untouched so that the memo of every other obligation stays valid).
 //! Added after seeded change C08f (`MutBumpVecRev::remove` skipped the shift for the last index instead of index 0).
 use super::h_stub::StubBump;
-use crate::{MutBumpVec, MutBumpVecRev};
+use crate::{BumpVec, MutBumpVec, MutBumpVecRev};
 
 const N: usize = 4;
 
@@ -98,13 +98,13 @@ rev_index_ops! {
 }
 
 macro_rules! fwd_index_ops {
-    ($($name:ident: $up:expr, $idx:expr;)*) => {$(
+    ($($name:ident: $up:expr, $idx:expr, $ty:ident, [$($m:tt)*];)*) => {$(
         #[kani::proof]
         #[kani::unwind(8)]
         pub(crate) fn $name() {
             let vals: [u16; N] = kani::any();
             let mut stub = StubBump::<$up>::new_at(8);
-            let mut v: MutBumpVec<u16, &mut StubBump<$up>> = MutBumpVec::new_in(&mut stub);
+            let mut v: $ty<u16, &$($m)* StubBump<$up>> = $ty::new_in(&$($m)* stub);
             let mut i = 0;
             while i < N {
                 kani::assert(v.try_push(vals[i]).is_ok(), "C08.fwd_index_ops.push_is_served");
@@ -128,8 +128,10 @@ macro_rules! fwd_index_ops {
     )*};
 }
 fwd_index_ops! {
-    fwd_remove_idx0_dn: false, 0;
-    fwd_remove_idx3_up: true, 3;
+    fwd_remove_idx0_dn: false, 0, MutBumpVec, [mut];
+    fwd_remove_idx3_up: true, 3, MutBumpVec, [mut];
+    shared_remove_idx1_up: true, 1, BumpVec, [];
+    shared_remove_idx3_dn: false, 3, BumpVec, [];
 }
 
 macro_rules! rev_truncate {
